@@ -27,6 +27,7 @@ import CookModel.Lemmas.DiagSoundUsesNone2
 import CookModel.Lemmas.DiagNoticeSpans
 import CookModel.Lemmas.DiagEventExact2
 import CookModel.Lemmas.DiagPlaceFam
+import CookModel.Lemmas.MetaValidator
 /-
   C07  Diagnostics are sound, complete and placed on the offending construct.
 
@@ -3236,5 +3237,78 @@ example : ∃ (evs1 evs2 : List (Ev Rat)) (arr : Array (Ev Rat)),
     [⟨.word, "Use".toList, 0⟩, ⟨.ws, [' '], 3⟩] [⟨.ws, [' '], 7⟩, ⟨.word, "now".toList, 8⟩]
     ⟨.tilde, ['~'], 4⟩ [] [] ⟨.openBrace, ['{'], 5⟩ [] ⟨.closeBrace, ['}'], 6⟩ (by decide) (by decide) rfl rfl rfl
     C07_w6WF (by decide) (by decide) C07_w6Shape (by intro t h; cases h)
+-- ===== w6fmrest =====
+/-! ## `>>` entries under a `metadata_validator` (Analysis/MetaValidator.lean)
+
+  The lift of C13's "warning iff the accessor gives nothing" to `>>` entries under a validator lives here, as
+  `C07_front_matter_std_warning_iff_nothing` does: Props/C13.lean cannot see the collector (its `open Cook.SM` would
+  make the collector's own `StdKey` ambiguous). -/
+
+/-- **"A value outside the documented forms gives a warning at parse time and nothing from the accessor" for a
+    `>>` entry under a validator.**  Let the entry `>> key: value` not be a `[config]` entry, `v` the verdict the
+    validator leaves on it (`CheckResult` kind, `include`, `run_std_checks`), `s` the collector before and `s'`
+    after it.  The report grows by the validator's own diagnostic (none for `Ok`; "Invalid metadata entry", warning
+    or error, labelled with the key span and the value span), and then:
+    (a) `include(false)`: the entry is ABSENT — map and servings are as before — and there is no "Unsupported value"
+        warning, whatever the value;
+    (b) included, `run_std_checks(false)`: the entry is inserted (`key_t: value_t`, replacing in place), the servings
+        are as before, and there is no "Unsupported value" warning, whatever the value;
+    (c) included, std checks on: what the code without a validator reports (`c07i_entryDiags`: the std warning or
+        the time-override warning), and the "Unsupported value for key" warning is among it exactly when the key is
+        the name of a standard key `sk` and the check refuses the value — which, with the check instantiated by the
+        C13 model (`FM.stdCheckOfSM`, what the driver runs), is: exactly when the accessor of `sk` gives nothing for
+        the text (`SM.accessorGives … = false`; by `C13_warning_iff_outside_forms` / the Spec equalities: the text is
+        outside the documented forms). -/
+theorem C07_old_style_entry_under_validator (env : Env) (v : FM.Verdict) (key value : Text)
+    (s : Col α) (hc : MV.isCfg env key = false) :
+    (v.incl = false →
+      (MV.metadataV env v key value s).2.metaMap = s.metaMap ∧ (MV.metadataV env v key value s).2.servings = s.servings ∧
+      (MV.metadataV env v key value s).2.diags.toList = s.diags.toList ++ MV.validatorDiags v key value) ∧
+    (v.incl = true → v.runStd = false →
+      (MV.metadataV env v key value s).2.metaMap =
+        metaInsert s.metaMap (key.trimmed env.cs) (value.outerTrimmed env.cs) ∧
+      (MV.metadataV env v key value s).2.servings = s.servings ∧
+      (MV.metadataV env v key value s).2.diags.toList = s.diags.toList ++ MV.validatorDiags v key value) ∧
+    (v.incl = true → v.runStd = true →
+      (MV.metadataV env v key value s).2.diags.toList =
+        s.diags.toList ++ MV.validatorDiags v key value ++ c07i_entryDiags env key value s.metaLocs ∧
+      ((∃ d ∈ c07i_entryDiags env key value s.metaLocs, d.kind = "std-unsupported-value") ↔
+        ∃ sk, StdKey.ofStr (String.ofList (key.trimmed env.cs)) = some sk ∧
+          env.stdCheck sk (value.outerTrimmed env.cs) = .rejected) ∧
+      ∀ (c : SM.Conv α) (alpha : Char → Bool), env.stdCheck = FM.stdCheckOfSM c alpha →
+        ((∃ d ∈ c07i_entryDiags env key value s.metaLocs, d.kind = "std-unsupported-value") ↔
+          ∃ sk, StdKey.ofStr (String.ofList (key.trimmed env.cs)) = some sk ∧
+            SM.accessorGives c alpha (FM.toSMKey sk) (.str (value.outerTrimmed env.cs)) = false)) := by
+  obtain ⟨h1, h2, h3⟩ := MV.mvl_entry_report env v key value s hc
+  refine ⟨h1, h2, fun hi hr => ⟨h3 hi hr, MV.mvl_entryDiags_warns env key value s.metaLocs, fun c alpha he => ?_⟩⟩
+  rw [MV.mvl_entryDiags_warns env key value s.metaLocs, he]
+  simp only [MV.mvl_stdCheckOfSM_rejected]
+
+/-- the validator's own diagnostic never is the std warning: "no warning" in (a) and (b) above means no
+    "Unsupported value for key" in what the entry adds to the report -/
+theorem C07_validator_diag_is_not_std_warning (v : FM.Verdict) (key value : Text) :
+    ∀ d ∈ MV.validatorDiags v key value, d.kind = "metadata-validator" ∧ d.labels = [key.span, value.span] := by
+  intro d hd
+  unfold MV.validatorDiags FM.validatorDiag at hd
+  cases hr : v.res <;> rw [hr] at hd <;> simp at hd <;> subst hd <;> exact ⟨rfl, rfl⟩
+
+/-! non-vacuity: `servings: muchas` (the C13 model refuses it under the empty converter) — excluded: nothing but the
+    validator's error; unchecked: inserted, no warning; checked: inserted and warned -/
+def C07_exCsV : CharSpec :=
+  ⟨fun c => c == ' ', fun _ => false, fun c => c.isAlpha, fun c => c == ' ' || c == '\n', fun c => c.isAlpha⟩
+def C07_exEnvV : Env := ⟨C07_exCsV, ⟨0⟩, fun _ => none, FM.stdCheckOfSM (α := Rat) SM.emptyConv (fun _ => false), fun c => [c], 0⟩
+def C07_exKeyV : Text := Text.fromStr " servings".toList 2
+def C07_exValueV : Text := Text.fromStr " muchas".toList 12
+
+example : MV.isCfg C07_exEnvV C07_exKeyV = false := by decide
+example : ((MV.metadataV (α := Rat) C07_exEnvV ⟨.error, false, true⟩ C07_exKeyV C07_exValueV {}).2.metaMap,
+      (MV.metadataV (α := Rat) C07_exEnvV ⟨.error, false, true⟩ C07_exKeyV C07_exValueV {}).2.diags.toList.map (·.kind)) =
+    ([], ["metadata-validator"]) := by decide +kernel
+example : ((MV.metadataV (α := Rat) C07_exEnvV ⟨.ok, true, false⟩ C07_exKeyV C07_exValueV {}).2.metaMap,
+      (MV.metadataV (α := Rat) C07_exEnvV ⟨.ok, true, false⟩ C07_exKeyV C07_exValueV {}).2.diags.toList.map (·.kind)) =
+    ([("servings".toList, "muchas".toList)], []) := by decide +kernel
+example : ((MV.metadataV (α := Rat) C07_exEnvV ⟨.warning, true, true⟩ C07_exKeyV C07_exValueV {}).2.metaMap,
+      (MV.metadataV (α := Rat) C07_exEnvV ⟨.warning, true, true⟩ C07_exKeyV C07_exValueV {}).2.diags.toList.map (·.kind)) =
+    ([("servings".toList, "muchas".toList)], ["metadata-validator", "std-unsupported-value"]) := by decide +kernel
 
 end Cook
